@@ -20,6 +20,12 @@ func relMix() core.Mix {
 	}
 }
 
+func relMixWithReset() core.Mix {
+	m := relMix()
+	m[core.OpReset] = 1
+	return m
+}
+
 func observeC05(tr *tracker, op *core.Op) {
 	m := tr.sim.M
 	// a target assignment, then an unrelated move of the same entity, then the read-back
@@ -66,15 +72,17 @@ func TestC05(t *testing.T) {
 			Owned:           core.Own(core.CatRelation, core.CatPanicRelation, core.CatDeadTarget),
 			Verify:          core.FullVerify,
 			CheckRelQueries: true,
+
+			RelQueriesRegistered: true,
 		},
-		Mix:      relMix(),
+		Mix:      relMixWithReset(),
 		MaxPlain: 4, MinRel: 1, MaxRel: 3,
 		Setup: func(rt *rapid.T, sim *core.Sim, g *core.Gen) {
 			g.Illegal = []string{core.IllDeadTarget, core.IllDeadTarget, core.IllSecondRel}
 			g.IllegalPct = 12
 			g.TargetRemovalPct = 30
 		},
-		Rule:    "relation-centred histories: Builder creation with targets, Relations.Set/Exchange, World.Add/Remove/Exchange/Assign of relation and other components, Builder.Add, all batch forms, removal of targets; targets drawn from {zero, alive, the entity itself, existing parents} and - as injected faults - dead handles (incl. ones whose id is alive again) through every API that takes a target, plus second relation components; oracle after every op: Relations.Get/GetUnchecked and Query.Relation equal the model's last assigned target (zero after the relation was removed, re-added or swapped), Query(RelationFilter(All(r),t)) for every relation component r and every target t in use (or dead) selects exactly the model's set, every dead-target or second-relation call panics and changes nothing; non-trivial = an explicit non-zero target assignment followed by a later Add/Remove/Exchange/Assign on the same entity (kept or reset per the rules) and the read-back",
+		Rule:    "relation-centred histories: Builder creation with targets, Relations.Set/Exchange, World.Add/Remove/Exchange/Assign of relation and other components, Builder.Add, all batch forms, removal of targets; targets drawn from {zero, alive, the entity itself, existing parents} and - as injected faults - dead handles (incl. ones whose id is alive again) through every API that takes a target, plus second relation components; oracle after every op: Relations.Get/GetUnchecked and Query.Relation equal the model's last assigned target (zero after the relation was removed, re-added or swapped), Query(RelationFilter(All(r),t)) for every relation component r and every target t in use (or dead) selects exactly the model's set - through the plain filter and through the same filter kept registered since the pair was first seen, also across Reset -, every dead-target or second-relation call panics and changes nothing; non-trivial = an explicit non-zero target assignment followed by a later Add/Remove/Exchange/Assign on the same entity (kept or reset per the rules) and the read-back",
 		Observe: observeC05,
 	})
 }
